@@ -47,6 +47,7 @@ package backtest
 // Run: Begin first, End last, and in between only complete asset blocks (one worker; see Backtest.worker)
 //@ func Backtest.Run
 //@ modifies b, b.report
+//@ ensures[C13] "configuration-untouched" b.Workers == old(b.Workers) && b.LastDays == old(b.LastDays)
 //@ ensures[C13] "begin-first-end-last" result == nil ==> nev(b.report) >= old(nev(b.report)) + 2 && evkind(b.report, old(nev(b.report))) == 1 && evkind(b.report, nev(b.report) - 1) == 5 && len(b.Strategies) >= 1
 //@ ensures[C13] "only-asset-events-between" result == nil ==> (forall i :: old(nev(b.report)) + 1 <= i && i < nev(b.report) - 1 ==> 2 <= evkind(b.report, i) && evkind(b.report, i) <= 4)
 //@ ensures[C13] "asset-blocks-complete" result == nil ==> (forall i :: old(nev(b.report)) + 1 <= i && i < nev(b.report) - 1 && evkind(b.report, i) == 2 ==> i + len(b.Strategies) + 1 < nev(b.report) - 1 && evkind(b.report, i + len(b.Strategies) + 1) == 4 && evname(b.report, i + len(b.Strategies) + 1) == evname(b.report, i))
@@ -85,3 +86,7 @@ package backtest
 //@ modifies h
 //@ lit#0 ensures[C13] "comparator-ranks-higher-outcome-first" ((a.Outcome > b.Outcome) == (ret < 0)) && ((a.Outcome < b.Outcome) == (ret > 0))
 //@ lit#0 sorted a.Outcome >= b.Outcome
+
+// the report factory looks the builder up in a registry of function values: outside the subset
+//@ func NewReport
+//@ trusted registry of report builders (function values)
